@@ -139,17 +139,43 @@ theorem cnt_wrapper (w : Wrapper) (p : Bool) : cnt (w.toks p) = (w.kids.map WChi
 theorem cnt_hero (ls : List Leaf) : cnt (heroToks ls) = ls.length := by
   simp [heroToks, heroPre, heroPost, cnt_leaves]
 
-theorem cnt_bodyLoop : ∀ (bs : List Block) (p : Bool), cnt (bodyLoop bs p) = (bs.map Block.slots).sum
+theorem cnt_blockOuts : ∀ (bs : List Block) (p : Bool), ((blockOuts bs p).map cnt).sum = (bs.map Block.slots).sum
   | [], _ => rfl
   | .section s :: rest, p => by
-    simp [bodyLoop, cnt_section, cnt_bodyLoop rest, Block.slots]
+    simp [blockOuts, cnt_section, cnt_blockOuts rest, Block.slots]
   | .wrapper w :: rest, p => by
-    simp [bodyLoop, cnt_wrapper, cnt_bodyLoop rest, Block.slots]
+    simp [blockOuts, cnt_wrapper, cnt_blockOuts rest, Block.slots]
   | .hero ls :: rest, p => by
-    simp [bodyLoop, cnt_hero, cnt_bodyLoop rest, Block.slots]
+    simp [blockOuts, cnt_hero, cnt_blockOuts rest, Block.slots]
   | .raw b :: rest, p => by
-    simp only [bodyLoop, cnt_append, cnt_bodyLoop rest p, List.map_cons, List.sum_cons, Block.slots, rawSlots]
+    simp only [blockOuts, List.map_cons, List.sum_cons, cnt_blockOuts rest p, Block.slots, rawSlots]
     cases b <;> simp
+
+theorem cnt_dropLast_cc (l : List Tok) (h : l.getLast? = some Tok.cc) : cnt l.dropLast = cnt l := by
+  have := eq_dropLast_of_getLast l Tok.cc h
+  have h2 : cnt l = cnt (l.dropLast ++ [Tok.cc]) := by rw [← this]
+  rw [h2, cnt_append]; simp [cnt]
+
+theorem cnt_tail_co (l : List Tok) (h : l.head? = some Tok.co) : cnt l.tail = cnt l := by
+  have := eq_cons_of_head l Tok.co h
+  have h2 : cnt l = cnt (Tok.co :: l.tail) := by rw [← this]
+  rw [h2]; simp
+
+/-- the boundary merge drops markers only: content tokens are all kept -/
+theorem cnt_join : ∀ (outs : List (List Tok)) (held : List Tok), cnt (join held outs) = cnt held + (outs.map cnt).sum
+  | [], held => by simp [join]
+  | out :: rest, held => by
+    unfold join
+    by_cases he : out = []
+    · simp [he, cnt_join rest held]
+    · simp only [he, if_false]
+      by_cases hm : held.getLast? = some Tok.cc ∧ out.head? = some Tok.co
+      · simp only [hm, and_self, if_true, cnt_append, cnt_join rest out.tail, cnt_dropLast_cc held hm.1, cnt_tail_co out hm.2,
+          List.map_cons, List.sum_cons]
+      · simp only [hm, if_false, cnt_append, cnt_join rest out, List.map_cons, List.sum_cons]
+
+theorem cnt_bodyLoop (bs : List Block) (p : Bool) : cnt (bodyLoop bs p) = (bs.map Block.slots).sum := by
+  simp [bodyLoop, cnt_join, cnt_blockOuts]
 
 /-- **every content slot of the document is written exactly once**: as many content tokens as slots -/
 theorem content_count (bs : List Block) : cnt (render bs) = (bs.map Block.slots).sum := by
